@@ -51,7 +51,8 @@ import ast
 from ..absint import Interp, Raised, Record, Unsupported
 from ..astx import call_name, calls_named, dotted, enclosing_stmt, expand, kwarg, last
 from ..cfg import CFG, _catches_all
-from ..index import AnchorError, FuncNode, Module, ancestors, enclosing_class, enclosing_function, parent, qualname_of, walk_shallow
+from ..index import AnchorError, FuncNode, Module, _set_parents, ancestors, enclosing_class, enclosing_function, parent, qualname_of, walk_shallow
+from ..inline import Inliner, clone
 from ..report import VERIF
 from ..selftest import Twin
 from .c25 import Sim  # shared helper (Interp + await / async with / try with BaseException-aware handlers)
@@ -206,6 +207,50 @@ def _store_env(repo) -> dict:
     return env
 
 
+class _StaticFolder(Inliner):
+    """Folds private `@staticmethod` helpers of the caller's own class (reached as `self._h(...)` or `Cls._h(...)`) into
+    the caller. Repo.auto_inline leaves every decorated helper alone; a static method has no receiver, so its parameters
+    bind positionally like those of a plain function."""
+
+    def helper_for(self, call: ast.Call, cls: ast.ClassDef | None):
+        f = call.func
+        if cls is None or not (isinstance(f, ast.Attribute) and isinstance(f.value, ast.Name) and f.value.id in ("self", "cls", cls.name)):
+            return None
+        h = self.mod.functions.get(f"{qualname_of(cls)}.{f.attr}")
+        if h is None or not f.attr.startswith("_") or f.attr.startswith("__"):
+            return None
+        if [last(dotted(d)) for d in h.decorator_list] != ["staticmethod"] or h.args.vararg or h.args.kwarg:
+            return None
+        if any(isinstance(n, (ast.Yield, ast.YieldFrom)) for n in ast.walk(h)):
+            return None
+        if any(isinstance(n, ast.Call) and n is not call and last(call_name(n)) == f.attr for n in ast.walk(h)):
+            return None  # recursive
+        return h, False
+
+
+def _fold_static_helpers(mod: Module, fn: ast.AST) -> ast.AST:
+    """View of method `fn` with the static helpers of its class folded in (fn itself when there is nothing to fold)."""
+    cls = enclosing_class(fn)
+    if cls is None or not any(isinstance(c, ast.Call) and _StaticFolder(mod, ()).helper_for(c, cls) is not None for c in ast.walk(fn)):
+        return fn
+    tree = clone(mod.tree)
+    _set_parents(tree)
+    q = qualname_of(fn)
+    twin = [n for n in ast.walk(tree) if isinstance(n, FuncNode) and n.name == fn.name and qualname_of(n) == q]
+    if len(twin) != 1:
+        return fn
+    new = twin[0]
+    new.body = _StaticFolder(mod, ()).inline_block(new.body, new, enclosing_class(new), 2)
+    ast.fix_missing_locations(tree)
+    _set_parents(tree)
+    return new
+
+
+def _primitive(repo) -> tuple[Module, ast.AST]:
+    m, prim = repo.func(f"{STORE}:AbstractWorkflowStore.update_handler_status")
+    return m, _fold_static_helpers(m, prim)
+
+
 def _guard_allows(cfg: CFG, node, env: dict) -> bool:
     """False iff some dominating guard evaluates (AST interpretation) against reaching the node under env.
     Guards that cannot be evaluated are treated as possibly satisfied."""
@@ -347,7 +392,7 @@ def _r1(chk, repo, anc, senv) -> None:
                reason="update_handler_status is not called inside an awaited self._retry_store_write(...)")
 
     # ---- the primitive stores what it is given and never refuses running -> terminal
-    mp, prim = repo.func(f"{STORE}:AbstractWorkflowStore.update_handler_status")
+    mp, prim = _primitive(repo)
     pcfg = CFG(prim)
     upd = [c for c in calls_named(prim, "update") if isinstance(c.func, ast.Attribute) and dotted(c.func.value) == _params(prim)[0]]
     if not upd:
@@ -359,6 +404,13 @@ def _r1(chk, repo, anc, senv) -> None:
                    and isinstance(s.targets[0].value, ast.Name) and s.targets[0].value.id in rec_names]
         good = [s for s in assigns if isinstance(s.value, ast.Name) and s.value.id == f]
         ok = bool(good)
+        if not ok:
+            # the record handed, together with the field, to code the rule cannot see into: undecided, not a violation
+            opaque = [c for c in walk_shallow(prim) if isinstance(c, ast.Call) and c not in upd
+                      and any(isinstance(a, ast.Name) and a.id in rec_names for a in list(c.args) + [k.value for k in c.keywords])
+                      and any(isinstance(a, ast.Name) and a.id == f for a in list(c.args) + [k.value for k in c.keywords])]
+            if opaque:
+                raise AnchorError(f"C15.R1: update_handler_status hands the record and `{f}` to `{ast.unparse(opaque[0].func)}`, which the rule cannot fold into the primitive")
         reason = f"no assignment `<record>.{f} = {f}` on the record passed to self.update" if not ok else ""
         if ok:
             for s in good:
@@ -771,6 +823,46 @@ def _r2(chk, repo) -> None:
 
 
 # --------------------------------------------------------------------------------------- R3
+def _returned_component(e: ast.AST, i: int | None, callee: ast.AST, depth: int = 4) -> set[str]:
+    """May-set of the literal values of component `i` of a returned expression (i=None: of the expression itself).
+    A returned None contributes nothing (the caller's unpacking is not reached with it); a conditional expression
+    contributes both arms; a local contributes every value assigned to it anywhere in the helper (flow-insensitive,
+    so an over-approximation). Anything else cannot be resolved: AnchorError."""
+    if isinstance(e, ast.Constant):
+        if e.value is None:  # no tuple / no status: nothing is written with it
+            return set()
+        if i is None and isinstance(e.value, str):
+            return {e.value}
+    elif isinstance(e, ast.IfExp):
+        return _returned_component(e.body, i, callee, depth) | _returned_component(e.orelse, i, callee, depth)
+    elif isinstance(e, ast.Tuple) and i is not None and len(e.elts) > i and not any(isinstance(x, ast.Starred) for x in e.elts):
+        return _returned_component(e.elts[i], None, callee, depth)
+    elif isinstance(e, ast.Name) and depth > 0 and e.id not in _params(callee):
+        defs = [s for s in walk_shallow(callee) if isinstance(s, (ast.Assign, ast.AnnAssign, ast.AugAssign, ast.For, ast.AsyncFor, ast.With, ast.AsyncWith, ast.NamedExpr, ast.ExceptHandler))
+                and e.id in _binds(s)]
+        plain = [s for s in defs if (isinstance(s, ast.Assign) and len(s.targets) == 1 and isinstance(s.targets[0], ast.Name))
+                 or (isinstance(s, ast.AnnAssign) and isinstance(s.target, ast.Name) and s.value is not None)]
+        if defs and len(plain) == len(defs):
+            out: set[str] = set()
+            for s in plain:
+                out |= _returned_component(s.value, i, callee, depth - 1)
+            return out
+    raise AnchorError(f"C15.R3: cannot resolve the status returned by `{callee.name}`: `{ast.unparse(e)[:60]}`")
+
+
+def _binds(s: ast.AST) -> set[str]:
+    if isinstance(s, ast.ExceptHandler):
+        return {s.name} if s.name else set()
+    tgts: list[ast.AST] = []
+    if isinstance(s, ast.Assign):
+        tgts = list(s.targets)
+    elif isinstance(s, (ast.AnnAssign, ast.AugAssign, ast.NamedExpr, ast.For, ast.AsyncFor)):
+        tgts = [s.target]
+    elif isinstance(s, (ast.With, ast.AsyncWith)):
+        tgts = [w.optional_vars for w in s.items if w.optional_vars is not None]
+    return {n.id for t in tgts for n in ast.walk(t) if isinstance(n, ast.Name)}
+
+
 def _status_values(expr: ast.AST, site: ast.AST, mod: Module, repo) -> set[str]:
     if isinstance(expr, ast.Constant):
         return {expr.value} if isinstance(expr.value, str) else set()
@@ -794,12 +886,8 @@ def _status_values(expr: ast.AST, site: ast.AST, mod: Module, repo) -> set[str]:
                                 continue
                             resolved = True
                             for r in [x for x in walk_shallow(callee) if isinstance(x, ast.Return)]:
-                                if isinstance(r.value, ast.Tuple) and len(r.value.elts) > i and isinstance(r.value.elts[i], ast.Constant):
-                                    vals.add(r.value.elts[i].value)
-                                elif r.value is None or (isinstance(r.value, ast.Constant) and r.value.value is None):
-                                    continue
-                                else:
-                                    raise AnchorError(f"C15.R3: cannot resolve the status returned by `{callee.name}`: `{ast.unparse(r.value)[:60]}`")
+                                if r.value is not None:
+                                    vals |= _returned_component(r.value, i, callee)
                         if resolved:
                             return vals
     raise AnchorError(f"C15.R3: cannot resolve the status value `{ast.unparse(expr)[:60]}` at {mod.rel}:{getattr(site, 'lineno', '?')}")
@@ -835,7 +923,7 @@ def _r3(chk, repo, anc, senv) -> None:
     chk.extra["status_sites"] = [{"at": f"{s['mod'].rel}:{s['node'].lineno}", "kind": s["kind"], "values": sorted(s["values"])} for s in sites]
 
     # does the primitive refuse terminal -> running ?
-    mp, prim = repo.func(f"{STORE}:AbstractWorkflowStore.update_handler_status")
+    mp, prim = _primitive(repo)
     pcfg = CFG(prim)
     st_assign = [s for s in walk_shallow(prim) if isinstance(s, ast.Assign) and isinstance(s.targets[0], ast.Attribute) and s.targets[0].attr == "status"]
     prim_refuses = bool(st_assign)
@@ -891,14 +979,13 @@ def _r3(chk, repo, anc, senv) -> None:
             is_internal = cls is not None and any(r.endswith(":InternalRunAdapter") for r in repo.mro_names(f"{mod.name}:{cls.name}"))
             ev = _params(fn)[1] if len(_params(fn)) > 1 else None
             if is_internal and ev:
-                classes = []
-                for n in cfg.nodes_of(enclosing_stmt(node)):
-                    for t, label in cfg.guards(n):
-                        if t.kind == "test" and label == "T":
-                            for k in anc:
-                                if not k.startswith("<") and _class_test(t.ast.test, ev, anc, k) is True and _class_test(t.ast.test, ev, anc, "<user Event subclass>") is False:
-                                    classes.append(k)
-                if classes and not any(_isa(anc, k, "StopEvent") for k in classes):
+                # the event classes for which the write is reachable: every dominating guard (either polarity, early return or
+                # nested if, the test possibly held in a local) evaluated per class. The reaction must be specific to named
+                # engine event classes: an arbitrary user event must not reach it, nor any StopEvent-family class.
+                nodes = cfg.nodes_of(enclosing_stmt(node))
+                reach = {k for k in anc if any(_reaches(cfg, n, ev, anc, k, []) for n in nodes)}
+                classes = [k for k in reach if not k.startswith("<")] if "<user Event subclass>" not in reach else []
+                if classes and not any(_isa(anc, k, "StopEvent") for k in reach):
                     how = f"awaited reaction of an internal adapter to the non-terminal stream event(s) {sorted(set(classes))}, which precede the terminal event (C04) and are published awaited"
         chk.ob("C15.R3", f"a stored terminal status cannot be overwritten with `running` here ({s['kind']})" + (f" — {how}" if how else ""), bool(how), m=mod, node=node, fn=fn,
                instance=f"running-writer:{s['kind']}",
@@ -1022,6 +1109,13 @@ _ST = "packages/llama-agents-server/src/llama_agents/server/_store/abstract_work
 _ID = "packages/llama-agents-server/src/llama_agents/server/_runtime/idle_release_runtime.py"
 _DB = "packages/llama-agents-dbos/src/llama_agents/dbos/idle_release.py"
 _PR = "packages/llama-agents-server/src/llama_agents/server/_runtime/persistence_runtime.py"
+_IDLE_WRITE_OLD = ("        if isinstance(event, WorkflowIdleEvent):\n            idle_since = datetime.now(timezone.utc)\n            await self._store.update_handler_status(\n"
+                   "                self.run_id, status=\"running\", idle_since=idle_since\n            )\n            self._marked_idle = True\n        await super().write_to_event_stream(event)\n"
+                   "        if isinstance(event, WorkflowIdleEvent):\n    ")
+_PRIM_TAIL = "        if not isinstance(idle_since, _Unset):\n            handler.idle_since = idle_since\n        await self.update(handler)\n"
+_PRIM_FIELDS_OLD = ("        if status is not None:\n            handler.status = status\n        handler.updated_at = now\n        if status in (\"completed\", \"failed\", \"cancelled\"):\n"
+                    "            handler.completed_at = now\n        if result is not None:\n            handler.result = result\n        if error is not None:\n            handler.error = error\n" + _PRIM_TAIL)
+_PRIM_HELPER_HEAD = "\n    @staticmethod\n    def _apply_status_fields(handler, now, status, result, error) -> None:\n"
 _CLP = "packages/llama-index-workflows/src/workflows/runtime/control_loop.py"
 TWINS = [
     # ---- R1 breaking
@@ -1068,6 +1162,36 @@ TWINS = [
          "        if handler.status != \"running\":\n            return\n        await self._store.update_handler_status(run_id, status=\"running\", idle_since=None)\n        logger.info(", None),
     Twin("benign: primitive refuses terminal -> running (discharges every primitive caller)", _ST, "        if status is not None:\n            handler.status = status",
          "        if status is not None and not (status == \"running\" and is_terminal_status(handler.status)):\n            handler.status = status", None),
+    # ---- shapes of behaviour-preserving refactorings (class test in a local, early return, flattened status helper, static field helper)
+    Twin("benign: idle test held in a local", _ID, "        if isinstance(event, WorkflowIdleEvent):\n            idle_since = datetime.now(timezone.utc)",
+         "        became_idle = isinstance(event, WorkflowIdleEvent)\n        if became_idle:\n            idle_since = datetime.now(timezone.utc)", None),
+    Twin("benign: idle reaction behind an early return", _ID, _IDLE_WRITE_OLD,
+         "        if not isinstance(event, WorkflowIdleEvent):\n            await super().write_to_event_stream(event)\n            return\n"
+         "        idle_since = datetime.now(timezone.utc)\n        await self._store.update_handler_status(\n            self.run_id, status=\"running\", idle_since=idle_since\n        )\n"
+         "        self._marked_idle = True\n        await super().write_to_event_stream(event)\n", None),
+    Twin("class test in a local also matches terminal events", _ID, "        if isinstance(event, WorkflowIdleEvent):\n            idle_since = datetime.now(timezone.utc)",
+         "        became_idle = isinstance(event, (WorkflowIdleEvent, StopEvent))\n        if became_idle:\n            idle_since = datetime.now(timezone.utc)", "C15.R3"),
+    Twin("early return with the class test inverted (running written for everything but the idle event)", _ID, _IDLE_WRITE_OLD,
+         "        if isinstance(event, WorkflowIdleEvent):\n            await super().write_to_event_stream(event)\n            return\n"
+         "        idle_since = datetime.now(timezone.utc)\n        await self._store.update_handler_status(\n            self.run_id, status=\"running\", idle_since=idle_since\n        )\n"
+         "        self._marked_idle = True\n        await super().write_to_event_stream(event)\n", "C15.R3"),
+    Twin("benign: exit-command status helper flattened into a conditional expression", _PR, "        if isinstance(command.result, IdleReleasedEvent):\n            return None\n        return (\"completed\", command.result, None)",
+         "        released_as_idle = isinstance(command.result, IdleReleasedEvent)\n        return None if released_as_idle else (\"completed\", command.result, None)", None),
+    Twin("benign: exit-command status through a local", _PR, "        return (\"cancelled\", None, None)", "        outcome = \"cancelled\"\n        return (outcome, None, None)", None),
+    Twin("flattened exit-command helper can yield running", _PR, "        return (\"completed\", command.result, None)",
+         "        return (\"running\" if command.result is None else \"completed\", command.result, None)", "C15.R3"),
+    Twin("benign: primitive's field assignments in a static helper", _ST, _PRIM_FIELDS_OLD,
+         "        self._apply_status_fields(handler, now, status, result, error)\n" + _PRIM_TAIL + _PRIM_HELPER_HEAD +
+         "        handler.updated_at = now\n        if status is not None:\n            handler.status = status\n            if status in (\"completed\", \"failed\", \"cancelled\"):\n                handler.completed_at = now\n"
+         "        if result is not None:\n            handler.result = result\n        if error is not None:\n            handler.error = error\n", None),
+    Twin("static field helper refuses running -> terminal", _ST, _PRIM_FIELDS_OLD,
+         "        self._apply_status_fields(handler, now, status, result, error)\n" + _PRIM_TAIL + _PRIM_HELPER_HEAD +
+         "        handler.updated_at = now\n        if status is not None and handler.status != \"running\":\n            handler.status = status\n"
+         "        if result is not None:\n            handler.result = result\n        if error is not None:\n            handler.error = error\n", "C15.R1"),
+    Twin("static field helper drops the error", _ST, _PRIM_FIELDS_OLD,
+         "        self._apply_status_fields(handler, now, status, result, error)\n" + _PRIM_TAIL + _PRIM_HELPER_HEAD +
+         "        handler.updated_at = now\n        if status is not None:\n            handler.status = status\n"
+         "        if result is not None:\n            handler.result = result\n", "C15.R1"),
     # ---- R4 breaking
     Twin("shared back-off list consumed", _SR, "backoffs = list(self._persistence_backoff)", "backoffs = self._persistence_backoff", "C15.R4"),
     Twin("final failure swallowed", _SR, "                        exc_info=True,\n                    )\n                    raise", "                        exc_info=True,\n                    )\n                    return", "C15.R4"),
